@@ -85,19 +85,22 @@ class Unit:
     def path(self, ctx, state):
         S = SymMode(ctx)
         SymTime.EPS = None
+        gap = None
         with inject(self.patches()):
             args = self.build(S)
             try:
                 out = call_catching(self.call, args)
+                checks = self.spec(S, args, out)
             except Unsupported as e:
-                # the engine cannot follow the code here (an operation the shadow values do not model): no verdict from the
-                # solver is possible on this path; fall back to bug hunting on solver models of the assumptions, then report
-                # the gap (INCONCLUSIVE) unless a real violation was reproduced
-                state["sym_out"] = Raised(RuntimeError(f"engine gap: {e}"))
-                if not self.hunt(ctx, "engine-gap", state):
-                    raise
-                return None
-            checks = self.spec(S, args, out)
+                gap = e
+        if gap is not None:
+            # the engine cannot follow the code here (an operation the shadow values do not model): no verdict from the
+            # solver is possible on this path; fall back to bug hunting on solver models of the assumptions (on the
+            # unpatched code), then report the gap (INCONCLUSIVE) unless a real violation was reproduced
+            state["sym_out"] = Raised(RuntimeError(f"engine gap: {gap}"))
+            if not self.hunt(ctx, "engine-gap", state):
+                raise gap
+            return None
         state["sym_out"] = out
         for label, bad in checks:
             self.check_and_replay(ctx, label, bad, state)
